@@ -188,7 +188,9 @@ def run_shard(args):
     work, idx, header, shard, timeout = args
     f = os.path.join(work, f"cases_{idx}.v")
     write_cases_v(f, header, shard)
-    rc, out, dt = sh(["coqc", "-noglob", "-Q", COQ, "CC", f], cwd=work, timeout=timeout)
+    # large exported terms (thousands of nodes) overflow coqc's default stack while parsing
+    rc, out, dt = sh(f"ulimit -s unlimited 2>/dev/null || ulimit -s 1000000 2>/dev/null; exec coqc -noglob -Q {COQ} CC {f}",
+                     cwd=work, timeout=timeout)
     ids = [c["id"] for c in shard]
     if rc != 0 or ": list N" not in out:
         # find which case breaks compilation: bisect lazily by single-case files (bounded)
